@@ -139,7 +139,7 @@ def oracle(case, out):
     try:
         nearest = float(shown)
     except OverflowError:
-        nearest = math.copysign(math.inf, shown)
+        nearest = math.inf if shown > 0 else -math.inf    # e.g. f64::MAX at one significant digit shows 2.0e+308
     if (back != nearest) or (shown != 0 and math.copysign(1, back) != (-1 if neg else 1)):
         return ("read-back-value", "displayed %r reads back as %r, not as the f64 nearest to the displayed decimal" % (stripped, back))
     exact = Fraction(x)
